@@ -63,6 +63,17 @@ def constants(chk):
         cmp_table(chk, R, u, 'C255_A24', enc(c['a24'] * Rm % p, 255), '(A-2)/4 = 121665 in Montgomery form', src)
 
 
+def _u1_zero_test(w):
+    """selector of the zero test of u1 = e/s in the verifier: the br_iXX_iszero call that lies between the Montgomery multiplications
+    and the point computation (the r / s tests come before, the final comparison after)"""
+    def pred(F, i):
+        o = F.order[i['id']]
+        mm = [c for c in F.calls('br_%s_montymul' % w)]
+        ic = [c for c in F.calls() if c.get('callee') is None]
+        return bool(mm) and bool(ic) and min(F.order[c['id']] for c in mm) < o < max(F.order[c['id']] for c in ic)
+    return Call('br_%s_iszero' % w, pred=pred)
+
+
 def obligations():
     obs = []
     for w in ('i15', 'i31'):
@@ -77,12 +88,19 @@ def obligations():
         s = 'src/ec/ecdsa_%s_vrfy_raw.c' % w
         f = 'br_ecdsa_%s_vrfy_raw' % w
         R = 'ecdsa-verify'
+        # the zero test of u1 = e/s (third zero test; see zero_hash_verification) splits the point computation into two paths
+        zt = len(_u1_zero_test(w).sites(oblig.funit(s), f)) == 1
         obs += [
             Ob(s, f, Call('br_%s_decode_mod' % w), ('pin', 0), RET(0), ('pin', 1), 'r or s not below n must be rejected', rule=R, min_sites=2),
             Ob(s, f, Call('br_%s_iszero' % w, nth=0), ('pin', 1), RET(0), ('pin', 0), 's = 0 must be rejected', rule=R),
             Ob(s, f, ICall('muladd', ftype=r'^i32 \(i8\*, i8\*, i64, i8\*, i64, i8\*, i64, i32\)'), ('pin', 0), RET(0), ('pin', 1),
-               'failed point computation (invalid key / infinity) must be rejected', rule=R),
+               'failed point computation (invalid key / infinity) must be rejected', rule=R,
+               extra_hyps=[(_u1_zero_test(w), ('pin', 0))] if zt else []),
         ]
+        if zt:
+            obs.append(Ob(s, f, ICall('mul', ftype=r'^i32 \(i8\*, i64, i8\*, i64, i32\)'), ('pin', 0), RET(0), ('pin', 1),
+                          'failed point computation on the zero-hash path (invalid key) must be rejected', rule=R,
+                          extra_hyps=[(_u1_zero_test(w), ('pin', 1))]))
         s = 'src/ec/ecdsa_%s_vrfy_asn1.c' % w
         f = 'br_ecdsa_%s_vrfy_asn1' % w
         fl = build.const_values(['((FIELD_LEN << 2) + 24) >> 1'], includes=('ec/ecdsa_%s_vrfy_asn1.c' % w,))['((FIELD_LEN << 2) + 24) >> 1']
@@ -162,6 +180,33 @@ def asn1_integer_sign(chk):
             chk.ok(R, inst, src)
         else:
             chk.violation(R, inst, src, det + (': the INTEGER would be negative' if want == 2 else ': non-minimal encoding'), key='%s %d' % (R, b))
+
+
+def zero_hash_verification(chk):
+    """ECDSA verification computes u1*G + u2*Q with u1 = e/s, u2 = r/s.  e - the truncated, reduced hash value - can be 0 (an empty
+    hash, hash_len == 0, is in the property's range; so is a hash equal to n), and muladd() documents that a zero multiplier is an
+    error: the verifier must then take the single multiplication u2*Q, or valid signatures are rejected.  FOLD: with the zero test of
+    u1 read as true no muladd call is left after it and a mul call is; read as false the muladd call is there."""
+    import re
+    from .. import fold
+    R = 'ecdsa-zero-hash-verifies'
+    MULADD = r'^i32 \(i8\*, i8\*, i64, i8\*, i64, i8\*, i64, i32\)'
+    MUL = r'^i32 \(i8\*, i64, i8\*, i64, i32\)'
+
+    def icalls(F, ft):
+        return [i for i in fold._site_insts(F) if i['op'] == 'call' and i.get('callee') is None and re.search(ft, i.get('fty', ''))]
+
+    def single(F):
+        a, b = icalls(F, MULADD), icalls(F, MUL)
+        return (not a and len(b) >= 1), '%d muladd / %d mul call(s) after the test' % (len(a), len(b))
+    single.desc = 'only the single multiplication u2*Q is reachable'
+    obs = []
+    for w in ('i15', 'i31'):
+        s = 'src/ec/ecdsa_%s_vrfy_raw.c' % w
+        f = 'br_ecdsa_%s_vrfy_raw' % w
+        obs.append(Ob(s, f, _u1_zero_test(w), ('pin', 1), single, ('pin', 0),
+                      'u1 = e/s is zero (hash value 0 modulo n): muladd() must not be given a zero multiplier', rule=R))
+    oblig.run_obligations(chk, obs)
 
 
 def rs_nonzero(chk):
@@ -308,6 +353,7 @@ def run(tier):
     oblig.run_obligations(chk, obligations())
     oblig.run_obligations(chk, asn1_sig_obligations())
     asn1_integer_sign(chk)
+    zero_hash_verification(chk)
     rs_nonzero(chk)
     muladd_zero_test(chk)
     rfc6979_inputs(chk)
